@@ -13,7 +13,11 @@ META = {
     'the splitter itself is additive; the four virtual quarters used by '
     'the h-h/2 and hierarchical estimators tile their parent in time and '
     'space, in the fixed order lower/left, lower/right, upper/left, '
-    'upper/right, and sit on the parent\'s piece (R-children).',
+    'upper/right, sit on the parent\'s piece and have the parent\'s '
+    'arc-length sizes (R-children); leaves are graded towards the contact '
+    'point and the four-term time kernel is complete (R-apex, R-fourterm: '
+    'the pieces are integrated as accurately as the parent); internal '
+    'assertions cannot fire on laminar intervals (R-assert).',
     'checker_cmd': 'python3-vt -m stbem_static C11 --tier <tier>',
     'trusted_base': ['CPython ast', 'linear fact domain (Fourier-Motzkin)'],
 }
